@@ -724,6 +724,41 @@ func randomScenario(r *rand.Rand) Scenario {
 	return sc
 }
 
+// countProc counts OnEnd calls and distinct end times of the span currently under stress (probe, bulk).
+type countProc struct {
+	n   atomic.Int64
+	mu  sync.Mutex
+	ets []time.Time
+}
+
+func (p *countProc) OnStart(context.Context, sdktrace.ReadWriteSpan) {}
+func (p *countProc) OnEnd(ro sdktrace.ReadOnlySpan) {
+	p.n.Add(1)
+	et := ro.EndTime()
+	p.mu.Lock()
+	for _, x := range p.ets {
+		if x.Equal(et) {
+			p.mu.Unlock()
+			return
+		}
+	}
+	p.ets = append(p.ets, et)
+	p.mu.Unlock()
+}
+func (p *countProc) Shutdown(context.Context) error   { return nil }
+func (p *countProc) ForceFlush(context.Context) error { return nil }
+func (p *countProc) take() (int, int) {
+	p.mu.Lock()
+	defer p.mu.Unlock()
+	n, k := int(p.n.Swap(0)), len(p.ets)
+	p.ets = p.ets[:0]
+	return n, k
+}
+
+// probe reports (1) the order in which one End call fires the instrumentation points on the recording
+// path = the shape of End, and (2) if there is a span.end.checked point (an unlock window), what the
+// two-ender schedule "both reach span.end.checked, then one after the other proceeds" does: two
+// deliveries = the window is unguarded ("window"), one = End re-checks after the relock ("recheck").
 func probe() {
 	setRT(true)
 	points := []string{}
@@ -737,14 +772,139 @@ func probe() {
 	_, s := tp.Tracer("probe").Start(context.Background(), "probe")
 	s.End() // one call: the order of the points on the recording path is the shape of End
 	sdktrace.SetVerifHook(nil)
+	out := map[string]any{"points": points}
+	hasWindow := false
+	for _, p := range points {
+		hasWindow = hasWindow || p == "span.end.checked"
+	}
+	if hasWindow {
+		cp := &countProc{}
+		tp := sdktrace.NewTracerProvider(sdktrace.WithSpanProcessor(cp))
+		_, s := tp.Tracer("probe").Start(context.Background(), "probe2")
+		var id [2]atomic.Uint64
+		in := [2]chan struct{}{make(chan struct{}), make(chan struct{})}
+		rel := [2]chan struct{}{make(chan struct{}), make(chan struct{})}
+		done := [2]chan struct{}{make(chan struct{}), make(chan struct{})}
+		sdktrace.SetVerifHook(func(point string, _ ...any) {
+			if point != "span.end.checked" {
+				return
+			}
+			g := goid()
+			for i := range id {
+				if id[i].Load() == g {
+					close(in[i])
+					<-rel[i]
+				}
+			}
+		})
+		ender := func(i int) {
+			id[i].Store(goid())
+			s.End()
+			close(done[i])
+		}
+		wait := func(cs ...chan struct{}) bool { // any of cs within the bound
+			t := time.After(10 * time.Second)
+			for {
+				for _, c := range cs {
+					select {
+					case <-c:
+						return true
+					default:
+					}
+				}
+				select {
+				case <-t:
+					return false
+				default:
+					time.Sleep(50 * time.Microsecond)
+				}
+			}
+		}
+		reached := func(c chan struct{}) bool {
+			select {
+			case <-c:
+				return true
+			default:
+				return false
+			}
+		}
+		go ender(0)
+		ok := wait(in[0], done[0])
+		go ender(1)
+		ok = wait(in[1], done[1]) && ok
+		r0, r1 := reached(in[0]), reached(in[1])
+		close(rel[0])
+		ok = wait(done[0]) && ok
+		close(rel[1])
+		ok = wait(done[1]) && ok
+		sdktrace.SetVerifHook(nil)
+		n, _ := cp.take()
+		out["two_enders"] = map[string]any{"completed": ok, "reached_window": []bool{r0, r1}, "delivered": n}
+	}
 	setRT(false)
-	b, _ := json.Marshal(map[string]any{"points": points})
+	b, _ := json.Marshal(out)
 	fmt.Println(string(b))
+}
+
+// bulk: hook-free volume stress. n spans, each ended by `enders` goroutines at once, runtime/trace
+// started (a short tail without it), two counting processors; one summarised trace line per span,
+// judged by the same contract (SpanEndContract.tla, event "Bulk").
+func bulk(n, enders int, tw *vh.TraceWriter, res *vh.Result) {
+	sdktrace.SetVerifHook(nil)
+	cps := []*countProc{{}, {}}
+	tp := sdktrace.NewTracerProvider(sdktrace.WithSpanProcessor(cps[0]), sdktrace.WithSpanProcessor(cps[1]))
+	tracer := tp.Tracer("c10-bulk")
+	rng := rand.New(rand.NewSource(vh.Seed()))
+	phase := func(sc, n int, rtOn bool) {
+		setRT(rtOn)
+		tw.Emit(map[string]any{"ev": "Cfg", "sc": sc, "rt": rtOn, "nprocs": 2, "hooks": false, "name": "bulk"})
+		var wg sync.WaitGroup
+		for i := 0; i < n; i++ {
+			_, s := tracer.Start(context.Background(), "b")
+			if rng.Intn(2) == 0 {
+				s.SetAttributes(attribute.Int("a", i), attribute.Int("a", i+1), attribute.Int("b", i))
+			}
+			var flag atomic.Int32
+			k := enders
+			if rng.Intn(4) == 0 {
+				k = 2 + rng.Intn(enders)
+			}
+			wg.Add(k)
+			for e := 0; e < k; e++ {
+				go func() {
+					for spins := 0; flag.Load() == 0; spins++ { // start together; never spin unboundedly
+						if spins > 200 {
+							runtime.Gosched()
+						}
+					}
+					s.End()
+					wg.Done()
+				}()
+			}
+			flag.Store(1)
+			wg.Wait()
+			handed := []int{}
+			nets := 0
+			for _, cp := range cps {
+				c, d := cp.take()
+				handed = append(handed, c)
+				nets = max(nets, d)
+			}
+			if handed[0] > 1 || nets > 1 {
+				res.Count("bulk_spans_delivered_more_than_once", 1)
+			}
+			tw.Emit(map[string]any{"ev": "Bulk", "sc": sc, "span": i, "enders": k, "handed": handed, "nets": nets, "rec": s.IsRecording()})
+		}
+		res.Count("bulk_spans", int64(n))
+	}
+	phase(0, n, true)
+	phase(1, n/8, false)
+	setRT(false)
 }
 
 func main() {
 	if len(os.Args) < 2 {
-		fmt.Println("usage: c10 probe|random|scripts ...")
+		fmt.Println("usage: c10 probe|random|scripts|bulk ...")
 		os.Exit(3)
 	}
 	if os.Args[1] == "probe" {
@@ -757,6 +917,7 @@ func main() {
 	out := fs.String("out", "trace.ndjson", "")
 	resF := fs.String("res", "result.json", "")
 	hooks := fs.Bool("hooks", true, "the tree has the span.end.* instrumentation points")
+	enders := fs.Int("enders", 4, "bulk: goroutines ending each span")
 	fs.Parse(os.Args[2:])
 	tw, err := vh.NewTraceWriter(*out)
 	vh.Must(err)
@@ -764,6 +925,9 @@ func main() {
 	otel.SetErrorHandler(otel.ErrorHandlerFunc(func(error) {}))
 	var scs []Scenario
 	switch os.Args[1] {
+	case "bulk":
+		bulk(*n, *enders, tw, res)
+		res.Executed = int64(*n + *n/8)
 	case "random":
 		r := rand.New(rand.NewSource(vh.Seed()))
 		for i := 0; i < *n; i++ {
